@@ -1,3 +1,428 @@
-From Verif Require Import Lib.Base Model.C07_Strategies Proofs.C07.
-Theorem C07_stub : True. Proof. exact I. Qed.
-Print Assumptions C07_stub.
+(* C07 — multi-node strategies return the right valid answer, in bounded time.
+   Property theorems only; lemmas in Proofs/C07*.v; the model (what the code does) in
+   Model/C07_Strategies.v, the declarative side (what it should amount to) in Model/C07_Spec.v.
+
+   Reading guide.  An *event list* is the sequence of choices the collecting goroutine's [select]
+   makes: [EResp p v] (node p's response passed the strategy's validity rules), [EErr p] (node p
+   failed or its response was rejected), [ESoft] / [EHard] (the soft / hard timeout fired).
+   [brun] is the loop pair of the best / latest strategies and of beaconblockroot/majority,
+   [mrun] that of attestationdata/majority, [frun] the single select of the seven "first"
+   strategies.  Parts A-D quantify over ALL event lists (every mixture and order of responses,
+   errors, silence and timeouts).  Part E is about the *timed layer*: per node a behaviour
+   (content / error / silence, latency, whether it honours its context); [outcomes st pr ps] is the
+   set of (result, instant of return) over every order the clock allows for simultaneous events and
+   every iteration order of the Go map; these theorems quantify over all strategies, parameters
+   and node lists. *)
+From Verif Require Import Lib.Base Model.C07_Strategies Model.C07_Spec
+  Proofs.C07 Proofs.C07_Acc Proofs.C07_Timed Proofs.C07_Outcomes Proofs.C07_Majority Proofs.C07_Check Check.C07.
+From Coq Require Import Permutation QArith.
+Open Scope N_scope.
+
+(* =========================================================================================== *)
+(* A. The loops compute the declarative specification *)
+
+(* [consumed stop es]: the shortest prefix of [es] on which [stop] holds, or all of [es]. *)
+Theorem C07_consumed_is_shortest_stopping_prefix :
+  forall (E : Type) (stop : list E -> bool) (es : list E),
+    exists rest, es = consumed stop es ++ rest
+      /\ (forall c1 c2, consumed stop es = c1 ++ c2 -> c2 <> [] -> stop c1 = false)
+      /\ (stop (consumed stop es) = true \/ rest = []).
+Proof. intros E stop es. exact (consumed_spec stop es). Qed.
+Print Assumptions C07_consumed_is_shortest_stopping_prefix.
+
+(* the soft-timeout clause of the stop condition, in words: the first soft-timeout event of the
+   prefix has a response before it *)
+Theorem C07_soft_timeout_clause_meaning :
+  forall (V : Type) (es : list (event V)),
+    soft_resp false es = true <->
+    exists p1 p2, es = p1 ++ ESoft :: p2 /\ existsb is_soft p1 = false /\ existsb is_resp p1 = true.
+Proof. intros V es. exact (soft_resp_spec es). Qed.
+Print Assumptions C07_soft_timeout_clause_meaning.
+
+(* best / latest / beaconblockroot-majority, any accumulator and early-exit test, any number of
+   nodes, any event list: the loops consume exactly the shortest prefix on which
+       every node has been heard of  \/  early exit  \/  hard timeout  \/  soft timeout with a response in hand
+   holds, the accumulator is the fold over the responses of that prefix, and the loops have ended
+   iff that prefix stops. *)
+Theorem C07_best_loop_refines_spec :
+  forall (V A : Type) (acc : A -> V -> A) (early : A -> bool) (requests : Z) (a0 : A) (es : list (event V)),
+    (0 <= requests)%Z ->
+    let c := consumed (b_stop acc early requests a0) es in
+    b_acc (brun acc early requests a0 es) = accf acc a0 c
+    /\ (b_phase (brun acc early requests a0 es) = Done <-> b_stop acc early requests a0 c = true).
+Proof. intros V A acc early requests a0 es H. exact (b_refines acc early requests H a0 es). Qed.
+Print Assumptions C07_best_loop_refines_spec.
+
+(* attestationdata/majority: the same without the soft-timeout clause (its soft timeout only
+   moves from loop 1 to loop 2, which has the same condition) *)
+Theorem C07_majority_loop_refines_spec :
+  forall (V A : Type) (acc : A -> V -> A) (early : A -> bool) (requests : Z) (a0 : A) (es : list (event V)),
+    (0 <= requests)%Z ->
+    let c := consumed (m_stop acc early requests a0) es in
+    m_acc (mrun acc early requests a0 es) = accf acc a0 c
+    /\ (m_phase (mrun acc early requests a0 es) = Done <-> m_stop acc early requests a0 c = true).
+Proof. intros V A acc early requests a0 es H. exact (m_refines acc early requests H a0 es). Qed.
+Print Assumptions C07_majority_loop_refines_spec.
+
+(* non-vacuity: three nodes; a response, then the soft timeout ends the wait with that response,
+   and the later, higher response is never looked at *)
+Example C07_refines_example :
+  let es := [EResp 0 5; ESoft; EResp 1 9; EHard] in
+  consumed (b_stop (upd_best (fun x : N => x) N.ltb) no_early 3 None) es = [EResp 0 5; ESoft]
+  /\ b_acc (brun (upd_best (fun x : N => x) (fun a b => b <? a)) no_early 3 None es) = Some 5
+  /\ b_phase (brun (upd_best (fun x : N => x) (fun a b => b <? a)) no_early 3 None es) = Done.
+Proof. vm_compute. auto. Qed.
+
+(* =========================================================================================== *)
+(* B. Bounded time on event lists: "the fold ends at or before the hard-timeout event" *)
+
+Theorem C07_best_terminates_by_hard_timeout :
+  forall (V A : Type) (acc : A -> V -> A) (early : A -> bool) (requests : Z) (a0 : A) (es1 es2 : list (event V)),
+    (0 <= requests)%Z ->
+    b_phase (brun acc early requests a0 (es1 ++ EHard :: es2)) = Done
+    /\ brun acc early requests a0 (es1 ++ EHard :: es2) = brun acc early requests a0 (es1 ++ [EHard]).
+Proof. intros V A acc early requests a0 es1 es2 H. exact (b_hard_done acc early requests H a0 es1 es2). Qed.
+Print Assumptions C07_best_terminates_by_hard_timeout.
+
+Theorem C07_majority_terminates_by_hard_timeout :
+  forall (V A : Type) (acc : A -> V -> A) (early : A -> bool) (requests : Z) (a0 : A) (es1 es2 : list (event V)),
+    (0 <= requests)%Z ->
+    m_phase (mrun acc early requests a0 (es1 ++ EHard :: es2)) = Done
+    /\ mrun acc early requests a0 (es1 ++ EHard :: es2) = mrun acc early requests a0 (es1 ++ [EHard]).
+Proof. intros V A acc early requests a0 es1 es2 H. exact (m_hard_done acc early requests H a0 es1 es2). Qed.
+Print Assumptions C07_majority_terminates_by_hard_timeout.
+
+(* =========================================================================================== *)
+(* C. best: arg-max of what was consumed; an error iff nothing came in time *)
+
+(* strictly-greater replacement under ANY gt that is transitive and irreflexive on the scores that
+   occur (float64 >, NaN included): the returned response was consumed and no consumed response
+   strictly outscores it *)
+Theorem C07_best_returns_argmax_of_consumed :
+  forall (V S : Type) (sc : V -> S) (gt : S -> S -> bool) (requests : Z) (es : list (event V)) (b : V),
+    (0 <= requests)%Z ->
+    let vs := resps (consumed (b_stop (upd_best sc gt) no_early requests None) es) in
+    (forall x y z, In x vs -> In y vs -> In z vs ->
+                   gt (sc x) (sc y) = true -> gt (sc y) (sc z) = true -> gt (sc x) (sc z) = true) ->
+    (forall x, In x vs -> gt (sc x) (sc x) = false) ->
+    b_acc (brun (upd_best sc gt) no_early requests None es) = Some b ->
+    unbeaten sc gt vs b.
+Proof.
+  intros V S sc gt requests es b Hr vs Htr Hir Hb.
+  rewrite (proj1 (b_refines (upd_best sc gt) no_early requests Hr None es)) in Hb.
+  exact (best_unbeaten sc gt vs b Htr Hir Hb).
+Qed.
+Print Assumptions C07_best_returns_argmax_of_consumed.
+
+(* ... and when gt is a strict weak order on those scores (float64 > away from NaN) it is the
+   FIRST maximal consumed response: it strictly outscores every earlier one *)
+Theorem C07_best_returns_first_maximal :
+  forall (V S : Type) (sc : V -> S) (gt : S -> S -> bool) (requests : Z) (es : list (event V)) (b : V),
+    (0 <= requests)%Z ->
+    let vs := resps (consumed (b_stop (upd_best sc gt) no_early requests None) es) in
+    (forall x y z, In x vs -> In y vs -> In z vs ->
+                   gt (sc x) (sc y) = true -> gt (sc y) (sc z) = true -> gt (sc x) (sc z) = true) ->
+    (forall x y z, In x vs -> In y vs -> In z vs ->
+                   gt (sc x) (sc y) = true -> gt (sc x) (sc z) = true \/ gt (sc z) (sc y) = true) ->
+    b_acc (brun (upd_best sc gt) no_early requests None es) = Some b ->
+    first_max sc gt vs b.
+Proof.
+  intros V S sc gt requests es b Hr vs Htr Hneg Hb.
+  rewrite (proj1 (b_refines (upd_best sc gt) no_early requests Hr None es)) in Hb.
+  exact (best_first_max sc gt vs b Htr Hneg Hb).
+Qed.
+Print Assumptions C07_best_returns_first_maximal.
+
+(* the modelled float64 comparison meets those hypotheses *)
+Theorem C07_float_gt_is_a_strict_order :
+  (forall a b c, sgt a b = true -> sgt b c = true -> sgt a c = true)
+  /\ (forall a, sgt a a = false)
+  /\ (forall x y z, sgt (SFin x) (SFin y) = true -> sgt (SFin x) (SFin z) = true \/ sgt (SFin z) (SFin y) = true).
+Proof.
+  split; [exact sgt_trans|]. split; [exact sgt_irrefl|].
+  intros x y z H. exact (sgt_negtrans x y (SFin z) H z eq_refl).
+Qed.
+Print Assumptions C07_float_gt_is_a_strict_order.
+
+(* no result iff no response was consumed *)
+Theorem C07_best_error_iff_none :
+  forall (V S : Type) (sc : V -> S) (gt : S -> S -> bool) (requests : Z) (es : list (event V)),
+    (0 <= requests)%Z ->
+    (b_acc (brun (upd_best sc gt) no_early requests None es) = None
+     <-> resps (consumed (b_stop (upd_best sc gt) no_early requests None) es) = []).
+Proof.
+  intros V S sc gt requests es Hr.
+  rewrite (proj1 (b_refines (upd_best sc gt) no_early requests Hr None es)). unfold accf.
+  apply best_none_iff.
+Qed.
+Print Assumptions C07_best_error_iff_none.
+
+(* ... and, every node sending one message at most, that is: iff no response was delivered before
+   the hard-timeout event.  (An edit that returns an error although a late valid answer exists,
+   or that makes the soft timeout final, contradicts this.) *)
+Theorem C07_best_error_iff_none_in_time :
+  forall (V S : Type) (sc : V -> S) (gt : S -> S -> bool) (requests : Z) (es1 es2 : list (event V)),
+    (0 <= requests)%Z -> existsb is_hard es1 = false -> (msgs es1 <= requests)%Z ->
+    (b_acc (brun (upd_best sc gt) no_early requests None (es1 ++ EHard :: es2)) = None
+     <-> existsb is_resp es1 = false).
+Proof.
+  intros V S sc gt requests es1 es2 Hr Hnh Hm.
+  rewrite (proj1 (b_refines (upd_best sc gt) no_early requests Hr None (es1 ++ EHard :: es2))). unfold accf.
+  rewrite best_none_iff, existsb_resp_resps.
+  exact (best_consumed_resps (upd_best sc gt) requests None es1 es2 Hnh Hm).
+Qed.
+Print Assumptions C07_best_error_iff_none_in_time.
+
+Example C07_best_example :
+  b_acc (brun (upd_best (fun x : N => x) (fun a b => b <? a)) no_early 3 None
+              [EErr 0; ESoft; EResp 1 4; EResp 2 9; EHard]) = Some 9
+  /\ b_acc (brun (upd_best (fun x : N => x) (fun a b => b <? a)) no_early 3 None
+              [EErr 0; ESoft; EHard; EResp 1 4]) = None.
+Proof. vm_compute. auto. Qed.
+
+(* =========================================================================================== *)
+(* D. majority and first on response lists / event lists *)
+
+(* The table built from the consumed responses [vs], read back in ANY iteration order of the Go
+   map ([order] a permutation of it): the value used is the first response of a most frequently
+   reported key, with at least [thr] (and at least one) votes, and among equally frequent keys
+   one with the highest head slot; nothing is used iff no key has [thr] votes.
+   [key] is the hash tree root of the content, so responses with equal keys have equal head slots. *)
+Theorem C07_majority_returns_plurality :
+  forall (V : Type) (key slot_of : V -> N) (vs : list V) (order : list (N * (V * Z))) (thr : Z),
+    (forall x y, In x vs -> In y vs -> key x = key y -> slot_of x = slot_of y) ->
+    Permutation order (fold_left (bump key) vs []) ->
+    match maj_result slot_of thr order with
+    | Some v => find (fun x => key x =? key v) vs = Some v
+                /\ (thr <= votes key vs (key v))%Z /\ (1 <= votes key vs (key v))%Z
+                /\ forall v', In v' vs ->
+                     (votes key vs (key v') <= votes key vs (key v))%Z
+                     /\ (votes key vs (key v') = votes key vs (key v) -> slot_of v' <= slot_of v)
+    | None => forall v', In v' vs -> (votes key vs (key v') < thr)%Z
+    end.
+Proof. intros V key slot_of vs order thr. exact (maj_plurality key slot_of vs order thr). Qed.
+Print Assumptions C07_majority_returns_plurality.
+
+(* a value is used iff some reported value has at least the threshold of votes: "whenever at least
+   the configured threshold of nodes reported it and never otherwise" *)
+Theorem C07_majority_uses_iff_threshold :
+  forall (V : Type) (key slot_of : V -> N) (vs : list V) (order : list (N * (V * Z))) (thr : Z),
+    Permutation order (fold_left (bump key) vs []) ->
+    (maj_result slot_of thr order <> None <-> exists v, In v vs /\ (thr <= votes key vs (key v))%Z).
+Proof. intros V key slot_of vs order thr. exact (maj_uses_iff key slot_of vs order thr). Qed.
+Print Assumptions C07_majority_uses_iff_threshold.
+
+(* the early exit: once the largest count has reached max(requests/2+1, threshold) — which is what
+   both majority strategies test — the value then used is the one that would be used after ANY
+   further responses [vs'] of the remaining nodes, in any map order: it cannot be overtaken, and it
+   is used *)
+Theorem C07_majority_early_exit_sound :
+  forall (V : Type) (key slot_of : V -> N) (vs vs' : list V) (requests thr : Z)
+         (order order' : list (N * (V * Z))),
+    (Z.of_nat (length (vs ++ vs')) <= requests)%Z ->
+    (att_exit requests thr <= largest (fold_left (bump key) vs []))%Z ->
+    Permutation order (fold_left (bump key) vs []) ->
+    Permutation order' (fold_left (bump key) (vs ++ vs') []) ->
+    maj_result slot_of thr order' = maj_result slot_of thr order
+    /\ maj_result slot_of thr order <> None.
+Proof.
+  intros V key slot_of vs vs' requests thr order order' Hlen Hexit Hp Hp'.
+  assert (Hr : (0 <= requests)%Z) by lia.
+  unfold att_exit in Hexit.
+  destruct (largest_tbl key vs) as [_ [H0|[v [Hin Hv]]]].
+  - exfalso. pose proof (Z.div_pos requests 2 Hr ltac:(lia)). lia.
+  - destruct (maj_early_exit key slot_of vs vs' requests thr order order' v Hlen Hin) as [E [v0 [H0 _]]];
+      try assumption; try lia.
+    split; [exact E | congruence].
+Qed.
+Print Assumptions C07_majority_early_exit_sound.
+
+Example C07_majority_example :
+  let t := fold_left (bump (fun x : N => x / 10)) [11; 25; 12; 31; 13] [] in
+  maj_result (fun x : N => x) 3 t = Some 11 /\ maj_result (fun x : N => x) 4 t = None
+  /\ largest t = 3%Z.
+Proof. vm_compute. auto. Qed.
+
+(* first: what is returned is the first response of the list, provided it comes before the
+   hard-timeout event *)
+Theorem C07_first_returns_a_given_response :
+  forall (V : Type) (es : list (event V)) (v : V),
+    frun es = FDone (Some v) <->
+    exists es1 p es2, es = es1 ++ EResp p v :: es2
+                      /\ existsb is_resp es1 = false /\ existsb is_hard es1 = false.
+Proof. intros V es v. exact (frun_some_iff es v). Qed.
+Print Assumptions C07_first_returns_a_given_response.
+
+(* ... an error exactly when the hard-timeout event comes before every response; and it is still
+   waiting exactly when neither has happened *)
+Theorem C07_first_error_iff_none_in_time :
+  forall (V : Type) (es : list (event V)),
+    (frun es = FDone None <->
+     exists es1 es2, es = es1 ++ EHard :: es2 /\ existsb is_resp es1 = false /\ existsb is_hard es1 = false)
+    /\ (frun es = FWait <-> existsb is_resp es = false /\ existsb is_hard es = false).
+Proof. intros V es. split; [exact (frun_none_iff es) | exact (frun_wait_iff es)]. Qed.
+Print Assumptions C07_first_error_iff_none_in_time.
+
+Example C07_first_example :
+  frun [EErr 0; EResp 1 7%N; EResp 2 8%N; EHard] = FDone (Some 7%N)
+  /\ frun [EErr 0; EHard; EResp 1 7%N] = FDone None.
+Proof. vm_compute. auto. Qed.
+
+(* =========================================================================================== *)
+(* E. The timed layer: all strategies, all node behaviours, all orders of simultaneous events *)
+
+(* every strategy returns within its configured timeout, and never hangs *)
+Theorem C07_returns_within_timeout :
+  forall st pr ps o, In o (outcomes st pr ps) -> snd o <= p_timeout pr /\ fst o <> RHang.
+Proof. exact outcomes_within. Qed.
+Print Assumptions C07_returns_within_timeout.
+
+(* best / latest: the result is an acceptable answer some node gave no later than the return, which
+   no acceptable answer given before the return outscores; or an error, and then no acceptable
+   answer was given before the hard timeout *)
+Theorem C07_best_timed :
+  forall st pr ps r t,
+    template_of st = TBest -> In (r, t) (outcomes st pr ps) ->
+    t <= p_timeout pr /\
+    ((exists p0 v, r = result_of (Some v) /\ In p0 ps /\ gives_ok st pr p0 v /\ pv_time p0 <= t
+        /\ forall p1 v1, In p1 ps -> gives_ok st pr p1 v1 -> pv_time p1 < t ->
+                         sgt (vscore st pr v1) (vscore st pr v) = false)
+     \/ (r = RErr /\ forall p1 v1, In p1 ps -> gives_ok st pr p1 v1 -> p_timeout pr <= pv_time p1)).
+Proof. exact best_outcome_spec. Qed.
+Print Assumptions C07_best_timed.
+
+(* first: the result is the answer of a node that answered at the very instant of the return, and
+   no node answered earlier; or an error at the timeout, and then no node answered before it *)
+Theorem C07_first_timed :
+  forall st pr ps r t,
+    template_of st = TFirst -> In (r, t) (outcomes st pr ps) ->
+    t <= p_timeout pr /\
+    ((exists p0 v, r = result_of (Some v) /\ In p0 ps /\ gives pr p0 v /\ pv_time p0 = t
+        /\ forall p1 v1, In p1 ps -> gives pr p1 v1 -> t <= pv_time p1)
+     \/ (r = RErr /\ t = p_timeout pr /\ forall p1 v1, In p1 ps -> gives pr p1 v1 -> p_timeout pr <= pv_time p1)).
+Proof. exact first_outcome_spec. Qed.
+Print Assumptions C07_first_timed.
+
+(* majority (attestation data with its threshold, block root with threshold 0), the harness giving
+   equal ids exactly to equal contents: the value used was given, acceptable, by a node no later
+   than the return; counting the nodes that gave an acceptable answer with a given id, it has at
+   least one and at least the threshold of votes by the return, no value had more votes before the
+   return, and a value with as many has no higher head slot.  Nothing is used only if no value
+   reached max(1, threshold) votes before the hard timeout: "used whenever at least the threshold of
+   nodes reported it within the timeout and never otherwise". *)
+Theorem C07_majority_timed :
+  forall st pr ps r t,
+    (template_of st = TMajAtt \/ template_of st = TMajRoot) -> ids_ok ps ->
+    In (r, t) (outcomes st pr ps) ->
+    t <= p_timeout pr /\
+    ((exists p0 v, r = result_of (Some v) /\ In p0 ps /\ gives_ok st pr p0 v /\ pv_time p0 <= t
+        /\ (1 <= cnt st pr ps (fun x => (x <=? t)%N) (v_id v))%Z
+        /\ (maj_thr st pr <= cnt st pr ps (fun x => (x <=? t)%N) (v_id v))%Z
+        /\ forall p1 v1, In p1 ps -> gives_ok st pr p1 v1 ->
+             (cnt st pr ps (fun x => (x <? t)%N) (v_id v1) <= cnt st pr ps (fun x => (x <=? t)%N) (v_id v))%Z
+             /\ (cnt st pr ps (fun x => (x <? t)%N) (v_id v1) = cnt st pr ps (fun x => (x <=? t)%N) (v_id v)
+                 -> vslot pr v1 <= vslot pr v))
+     \/ (r = RErr /\ forall p1 v1, In p1 ps -> gives_ok st pr p1 v1 ->
+           (cnt st pr ps (fun x => (x <? p_timeout pr)%N) (v_id v1) < Z.max 1 (maj_thr st pr))%Z)).
+Proof. exact maj_outcome_spec. Qed.
+Print Assumptions C07_majority_timed.
+
+(* Responses that fail the strategy's validity rules are never returned: whatever any of the
+   fourteen strategies returns other than an error is the content of an answer some node gave, no
+   later than the return, and that answer passes the strategy's validity rules ... *)
+Theorem C07_invalid_never_returned :
+  forall st pr ps r t, In (r, t) (outcomes st pr ps) ->
+    r = RErr \/ exists p0 v, r = result_of (Some v) /\ In p0 ps /\ gives_ok st pr p0 v /\ pv_time p0 <= t.
+Proof. exact outcomes_valid. Qed.
+Print Assumptions C07_invalid_never_returned.
+
+(* ... which are the rules the property states: data and target present and target epoch = the
+   slot's epoch (attestation data, best and majority); no execution payload before bellatrix,
+   otherwise a known version with a fee recipient that is present and not zero (proposals); data
+   present (aggregates, contributions).  They coincide with [spec_valid], the predicate the check
+   evaluates on the implementation's observed output. *)
+Theorem C07_validity_rules :
+  forall st pr r,
+    accepts st pr r = spec_valid st pr r
+    /\ (accepts st pr r = true ->
+        match st, r with
+        | (AttBest | AttMajority), RAtt nil_data nil_target _ _ target _ =>
+            nil_data = false /\ nil_target = false /\ target = p_slot pr / p_spe pr
+        | PropBest, RProp ver fee _ _ => ver = 1 \/ ver = 2 \/ (3 <= ver <= 5 /\ fee = 1)
+        | AggBest, RAgg nil_data _ _ => nil_data = false
+        | ContribBest, RContrib nil_data _ => nil_data = false
+        | _, _ => True
+        end).
+Proof.
+  intros st pr r. split; [|exact (accepts_rules st pr r)].
+  destruct st, r; try reflexivity.
+Qed.
+Print Assumptions C07_validity_rules.
+
+Example C07_invalid_example :
+  let pr := mk_params 2000 32 64 0 [] in
+  (* the higher-scoring attestation data has the wrong target epoch: the lower one is returned *)
+  outcomes AttBest pr [mk_prov 0 100 false (BRespond (mk_value 0 (RAtt false false 64 1 2 7)));
+                       mk_prov 1 200 false (BRespond (mk_value 1 (RAtt false false 64 2 3 7)))] = [(RVal 0, 200)]
+  /\ outcomes AttMajority (mk_params 2000 32 64 2 []) [mk_prov 0 100 false (BRespond (mk_value 0 (RAtt false false 64 1 2 7)));
+                       mk_prov 1 200 false (BRespond (mk_value 0 (RAtt false false 64 1 2 7)));
+                       mk_prov 2 300 false BError] = [(RVal 0, 200)]
+  /\ outcomes AttMajority (mk_params 2000 32 64 3 []) [mk_prov 0 100 false (BRespond (mk_value 0 (RAtt false false 64 1 2 7)));
+                       mk_prov 1 200 false (BRespond (mk_value 0 (RAtt false false 64 1 2 7)));
+                       mk_prov 2 300 false BError] = [(RErr, 300)].
+Proof. vm_compute. auto. Qed.
+
+(* non-vacuity: two nodes, the slower one better; it is returned when it answers before the soft
+   timeout, and not waited for when it does not *)
+Example C07_timed_example :
+  let pr := mk_params 2000 32 64 0 [] in
+  let v1 := mk_value 0 (RContrib false 3) in let v2 := mk_value 1 (RContrib false 9) in
+  outcomes ContribBest pr [mk_prov 0 100 false (BRespond v1); mk_prov 1 900 false (BRespond v2)] = [(RVal 1, 900)]
+  /\ outcomes ContribBest pr [mk_prov 0 100 false (BRespond v1); mk_prov 1 1100 false (BRespond v2)] = [(RVal 0, 1000)]
+  /\ outcomes ContribFirst pr [mk_prov 0 100 false (BRespond v1); mk_prov 1 900 false (BRespond v2)] = [(RVal 0, 100)].
+Proof. vm_compute. auto. Qed.
+
+(* best, latest and block-root majority: an acceptable answer given before the soft timeout
+   (half the timeout) ends the wait at the soft timeout at the latest *)
+Theorem C07_soft_timeout_ends_wait :
+  forall st pr ps r t,
+    (template_of st = TBest \/ template_of st = TMajRoot) -> In (r, t) (outcomes st pr ps) ->
+    forall p1 v1, In p1 ps -> gives_ok st pr p1 v1 -> pv_time p1 < p_timeout pr / 2 ->
+    t <= p_timeout pr / 2.
+Proof. exact outcomes_soft_rule. Qed.
+Print Assumptions C07_soft_timeout_ends_wait.
+
+(* =========================================================================================== *)
+(* F. The property predicate of the check holds of the model, for all inputs.
+
+   [P_b c] (Check/C07.v) is the property evaluated on the OBSERVED output of the implementation,
+   without consulting the model: returned in time; every node asked once; best: an acceptable
+   answer given by the return that no acceptable answer given before the return outscores, the
+   soft-timeout rule, an error only if nothing acceptable came before the hard timeout; majority:
+   at least one and at least the threshold of votes, no value with more votes, ties by head slot,
+   an error only if no value reached the threshold in time; first: an answer given at the instant
+   of return with none earlier, an error only if none came in time.
+   [agree c]: the observed (result, instant) is one of the model's outcomes, every node was called
+   once (and the printed case is well formed).  Hence for EVERY strategy, parameters and node
+   behaviours: whatever the model can do satisfies the property predicate; the predicate can only
+   fail on the implementation where the implementation leaves the model. *)
+Theorem C07_model_satisfies_property_predicate :
+  forall c : case, agree c = true -> P_b c = true.
+Proof. exact agree_implies_P_b. Qed.
+Print Assumptions C07_model_satisfies_property_predicate.
+
+(* The predicate means the property: [P c] (Check/C07.v) is the property written as a proposition
+   over the nodes (who gave which acceptable answer when; votes counted over nodes).  Equal ids
+   carrying equal contents, a case that passes [P_b] satisfies [P] ... *)
+Theorem C07_property_predicate_is_sound :
+  forall c : case, ids_ok (c_provs c) -> P_b c = true -> P c.
+Proof. exact P_b_sound. Qed.
+Print Assumptions C07_property_predicate_is_sound.
+
+(* ... and so does every case on which the implementation's observed output is one of the model's
+   outcomes: the model satisfies the property, for all strategies, parameters, node behaviours,
+   orders of simultaneous events and Go map orders. *)
+Theorem C07_model_satisfies_property :
+  forall c : case, agree c = true -> P c.
+Proof. exact agree_implies_P. Qed.
+Print Assumptions C07_model_satisfies_property.
